@@ -55,7 +55,7 @@ def _find_scope(tree, dotted):
     return node
 
 
-def ast_edit(src, scope, stmt, new):
+def ast_edit(src, scope, stmt, new, nth=None):
     """Replace the statement inside ``scope`` whose ``ast.unparse`` equals
     ``stmt`` (or starts with it when ``stmt`` ends in '...') by ``new``
     (re-indented); returns None if not found exactly once."""
@@ -76,6 +76,11 @@ def ast_edit(src, scope, stmt, new):
         o is not h and o.lineno <= h.lineno and h.end_lineno <= o.end_lineno
         and (u_ := 1) for o in hits if o is not h
         and any(x is h for x in ast.walk(o)))]
+    hits.sort(key=lambda h: h.lineno)
+    if nth is not None:
+        if nth >= len(hits):
+            return None
+        hits = [hits[nth]]
     if len(hits) != 1:
         return None
     n = hits[0]
@@ -91,7 +96,8 @@ def apply_mutant(scratch, m):
     with open(p) as f:
         s = f.read()
     if 'stmt' in m:
-        s2 = ast_edit(s, m.get('scope'), m['stmt'], m['new'])
+        s2 = ast_edit(s, m.get('scope'), m['stmt'], m['new'],
+                      m.get('nth'))
         if s2 is None:
             return False
     else:
